@@ -981,6 +981,8 @@ func (r *runner) generateConfs() {
 			}
 		}
 	}
+	// --- systematic: operator arguments that reach the operators' inner branches x derived traffic ---
+	r.generateOpTraffic()
 	// --- systematic: every transformation (alone and in chains with multiMatch) ---
 	for _, t := range tabTransformations {
 		c := header + fmt.Sprintf("SecRule ARGS|REQUEST_URI|REQUEST_BODY|REQUEST_HEADERS \"@rx a\" \"id:1,phase:2,pass,t:none,t:%s\"\nSecRule ARGS|REQUEST_BODY \"@contains a\" \"id:2,phase:2,pass,multiMatch,t:%s,t:%s,t:%s\"\n",
